@@ -502,6 +502,10 @@ inline void Emit(FILE* out, const std::string& scenario_name, const std::string&
 #define VRT_DEFINE_QUEUE_ACCESS()                                                                                      \
   namespace vrt::detail {                                                                                              \
   inline bool QueueEmpty() {                                                                                           \
-    return g.sched == nullptr || g.sched->_queue.Empty();                                                              \
+    /* nobody else could run now: the run queue is empty and no sleeper is already due (a due sleeper is moved */     \
+    /* to the run queue only at the next scheduler iteration) */                                                       \
+    return g.sched == nullptr ||                                                                                       \
+           (g.sched->_queue.Empty() &&                                                                                 \
+            (g.sched->_sleep_list.empty() || g.sched->_sleep_list.begin()->first > g.sched->_time));                   \
   }                                                                                                                    \
   }
